@@ -28,6 +28,7 @@ LEAN = os.path.join(VERIF, 'lean')
 sys.path.insert(0, os.path.join(VERIF, 'tools', 'harness'))
 os.environ.setdefault('PYTHONWARNINGS', 'ignore')
 
+QUICK_SCALE = int(os.environ.get('SSJ_QUICK_SCALE', '3'))      # quick budgets of the table below are multiplied by this
 ALLOWED_AXIOMS = {'propext', 'Classical.choice', 'Quot.sound'}
 FORBIDDEN = re.compile(r'\b(sorry|admit|native_decide|bv_decide|implemented_by|unsafe)\b|^\s*axiom\s|maxHeartbeats\s+0\b', re.M)
 
@@ -291,7 +292,7 @@ def run_suites(pid, tier, seed, stats, log, mult=1):
     for spec in PROPS[pid]['suites']:
         name, nq, nt = spec[0], spec[1], spec[2]
         kw = spec[3] if len(spec) > 3 else {}
-        n = (nq if tier == 'quick' else nt) * mult
+        n = (nq * QUICK_SCALE if tier == 'quick' else nt) * mult
         rng = random.Random('%s-%s-%d' % (pid, name, seed))
         t0 = time.time()
         cases = S.SUITES[name](rng, n, stats, **kw)
@@ -326,7 +327,7 @@ def run_oracles(pid, tier, seed, stats, log, mult=1, known_hits=None):
     props = set(cfgp['oracle_props']) | {'C15x'}
     v, per = [], {}
     for name, nq, nt in cfgp['oracles']:
-        n = (nq if tier == 'quick' else nt) * mult
+        n = (nq * QUICK_SCALE if tier == 'quick' else nt) * mult
         rng = random.Random('%s-o-%s-%d' % (pid, name, seed))
         t0 = time.time()
         if name == 'setsim':
